@@ -419,6 +419,19 @@ static void modeOpt(const Case& c)
             for (auto& a : args)
                 av.push_back(a.data());
             s = std::make_unique<GMGPolar>();
+            if (c.has("argv0")) {
+                // another command line parsed first on the same object (the default constructor itself parses an empty one): every
+                // option of the second command line must replace what the first left behind
+                std::vector<std::string> args0{"gmgpolar"};
+                std::istringstream is(c.str("argv0"));
+                std::string a;
+                while (std::getline(is, a, '|'))
+                    args0.push_back(a);
+                std::vector<char*> av0;
+                for (auto& x : args0)
+                    av0.push_back(x.data());
+                s->setParameters((int)av0.size(), av0.data());
+            }
             s->setParameters((int)av.size(), av.data());
         }
         else
